@@ -15,7 +15,7 @@ LEVEL = "exploration"
 RULE = (
     "Hypothesis generates a tabular problem (1..9 states, 1..4 actions, 1..4 events; several events leading to the same "
     "successor arise freely; single-event problems; scalar or 1-element-array probabilities; all encodings), a "
-    "normalization_tolerance in [1e-8, 1e-1] and optionally one (state, action) row whose probability mass is 1 +- "
+    "normalization_tolerance in [1e-8, 0.25] (and exactly 0 together with a mass defect of 1/8) and optionally one (state, action) row whose probability mass is 1 +- "
     "delta with delta a generated multiple (0.01..50) of the tolerance. Oracle: numpy accumulation of P[a,s,s'] "
     "(total probability of the events leading to s') and R[s,a] (expected reward); if delta > tolerance a ValueError "
     "naming exactly that (state, action) pair must be raised; otherwise P must equal the accumulation with rows "
@@ -50,12 +50,14 @@ def strategy(tier, shard):
             return dict(shipped=dict(kind=kind, params=draw(shipped.param_strategy(kind, 4000))))
         spec = draw(mdp_specs(max_states=9, allow_pol0=False))
         nS, nA = spec["nS"], spec["nA"]
-        tol = draw(st.sampled_from([1e-8, 1e-6, 1e-4, 1e-4, 1e-3, 1e-2, 1e-1]))
+        tol = draw(st.sampled_from([1e-8, 1e-6, 1e-4, 1e-4, 1e-3, 1e-2, 1e-1, 0.25]))
         defect = None
         if draw(st.integers(0, 2)) > 0:
             defect = dict(s=draw(st.integers(0, nS - 1)), a=draw(st.integers(0, nA - 1)),
                           factor=draw(st.sampled_from([0.01, 0.3, 0.9, 1.1, 2.0, 7.0, 50.0])),
                           sign=draw(st.sampled_from([-1, 1])))
+        if defect is not None and draw(st.integers(0, 5)) == 0:
+            tol = 0.0  # tolerance 0: any real deviation must be reported (the defect is then a fixed 1/8 of the mass)
         return dict(spec=spec, tol=tol, defect=defect, solve=draw(st.integers(0, 2)) == 0,
                     gamma=draw(st.sampled_from([0.5, 0.8, 0.9])))
 
@@ -120,7 +122,7 @@ def judge(case):
     classes = spec_classes(spec)
     delta = 0.0
     if defect:
-        delta = float(defect["factor"]) * tol * int(defect["sign"])
+        delta = float(defect["factor"]) * tol * int(defect["sign"]) if tol > 0 else 0.125 * int(defect["sign"])
         if 1 + delta <= 0.05:
             delta = -0.5
         s, a = int(defect["s"]), int(defect["a"])
